@@ -45,6 +45,7 @@ def showErr : Err → String
   | .fileExists => "fileexists"
   | .key => "key"
   | .value => "value"
+  | .type => "type"
   | .assertion => "assertion"
   | .bounds => "bounds"
   | .index => "index"
@@ -95,8 +96,8 @@ def handle : List String → Option String
     | none => some "err index"
     | some ss =>
       match checkTimeArrays ss twin res with
-      | none => some "err value"
-      | some tc =>
+      | .error e => some ("err " ++ showErr e)
+      | .ok tc =>
         let rec' := match tc.common with
           | some (a, b, d) => s!"{showRat a},{showRat b},{showRat d}"
           | none => "-"
@@ -111,8 +112,8 @@ def handle : List String → Option String
     | none => some "err index"
     | some ss =>
       match createCommonTime roundHalfEven ss ((sers.head?.map (·.2)).getD []) twin with
-      | some ct => some ("ok " ++ showRats ct)
-      | none => some "err value"
+      | .ok ct => some ("ok " ++ showRats ct)
+      | .error e => some ("err " ++ showErr e)
   | "ex.names" :: cwd :: base :: keys => do
     let cwd ← kv? "cwd=" cwd
     let base ← bool? "base=" base
